@@ -38,7 +38,8 @@ TIERS = {
               "required_probes": ["c17.run_completed", "c17.barrier_event_mixed", "c17.reuse_log_then_identity",
                                   "c17.multilevel_run", "c17.pool_run", "c17.default_happened", "c17.default_mixed",
                                   "c17.stochastic_time_grid", "c17.shared_control_variates", "c17.asian_run",
-                                  "c17.kth_name_default_run", "c17.shared_control_variates_multilevel"]},
+                                  "c17.kth_name_default_run", "c17.shared_control_variates_multilevel",
+                                  "c17.run_interrupted_then_session_continues"]},
     "thorough": {"worlds": 200000, "wall": 3300, "shrink_budget": 150,
                  "required_probes": ["c17.run_completed", "c17.barrier_event_mixed", "c17.reuse_log_then_identity",
                                      "c17.multilevel_run", "c17.pool_run", "c17.default_happened",
@@ -90,13 +91,19 @@ def generate(seed, tier="quick"):
         rep = "LOG" if kind in ("cds", "ntd", "cdsk") else ("IDENTITY" if kind == "rates" else r.choice(["LOG", "IDENTITY"]))
         runs.append({"engine": eng, "rep": rep, "nproc": r.choice([1, 1, 2, 4]), "n": r.choice([2, 3, 5, 9, 20]),
                      "max_level": r.choice([1, 2])})
+    if nruns >= 2 and r.random() < 0.12:
+        # fault: a run of the session (not the last) is interrupted - the simulation of one of its samples fails - and
+        # the session goes on with the same product (and control) objects
+        k = r.randrange(nruns - 1)
+        runs[k]["fail_at"] = r.randrange(0, 2 * runs[k]["n"])
     vol = r.choice([0.03, 0.08, 0.15])
     return {"world_seed": seed, "product": spec, "x0": x0, "runs": runs, "vol": vol, "df": r.choice([1.0, 0.9]),
             "drift": r.choice([0.0, 0.0, 0.08, -0.15]), "jitter": r.random() < 0.4,
             "control": (r.choice(["spot_forward", "logspot_forward", "logspot_forward"]) if (kind not in ("multi", "rates", "ntd", "cds", "cdsk") and r.random() < 0.35)
                         else ("same_underlying_sum" if (kind == "multi" and spec["sub"] in ("performances_rainbow", "logspot", "indicators") and r.random() < 0.6) else None)),
             "pseed": r.randrange(10 ** 9), "jump_prob": r.choice([0.0, 0.3, 0.6]),
-            "env": {"cpu_count": 4, "path_cost": 1e-5, "spawn_cost": 1e-4}}
+            "env": dict({"cpu_count": 4, "path_cost": 1e-5, "spawn_cost": 1e-4},
+                        **({"task_fail_one_in": 3} if (any(x["nproc"] != 1 for x in runs) and r.random() < 0.1) else {}))}
 
 
 def shrink_candidates(sc):
@@ -302,6 +309,7 @@ def execute(wd, sc):
         need = n if run["engine"] == "standard" else n * (1 + 2 * run["max_level"])
         wd.stub_paths = _paths(sc, need + 4, m, log, rng)
         wd.stub_serial = 0
+        wd.stub_fail_at = run.get("fail_at")
         s0 = len(wd.samples)
         wd.run_index = ri
         cls = f"payoff={kind}{'/' + spec['barrier_type'] if kind == 'barrier' else ''}|engine={run['engine']}"
@@ -326,6 +334,9 @@ def execute(wd, sc):
         except Exception as e:
             errors.append({"kind": type(e).__name__, "msg": f"run {ri}: " + str(e)[:160]})
             wd.probes["c17.run_raised"] += 1
+            if type(e).__name__ in ("InjectedPathFailure", "InjectedWorkerFailure"):
+                wd.probes["c17.run_interrupted_then_session_continues"] += 1
+                continue
             # did the ENGINE fail, or has the product no value on this (valid) path at all?  Evaluate a fresh copy of the
             # pristine product directly on the first path scripted for this run.
             d0, j0, t0 = wd.stub_paths[0]
